@@ -4,6 +4,7 @@ import Driver.Util
 import Driver.C15
 import Driver.Codec
 import Driver.Engine
+import Driver.Stream
 
 partial def loop {σ : Type} (step : σ → String → σ × String) (hin hout : IO.FS.Stream) (s : σ) : IO Unit := do
   let line ← hin.getLine
@@ -20,5 +21,6 @@ def main (args : List String) : IO UInt32 := do
   match args with
   | ["c15"] => loop Drv.C15.step hin hout (); hout.flush; return 0
   | ["engine"] => loop Drv.Engine.step hin hout none; hout.flush; return 0
+  | ["stream"] => loop Drv.Stream.step hin hout {}; hout.flush; return 0
   | ["codec"] => loop Drv.Codec.step hin hout (); hout.flush; return 0
   | _ => IO.eprintln "usage: zvdriver <proto>"; return 2
